@@ -28,7 +28,7 @@ CHECKS = {
    note="Trusts CPython's line tracing and fork() as a fresh process; pre-emption only in athlib frames (not inside jsonschema/stdlib); locks, conditions, events, semaphores and queues reachable from athlib (module globals, instance and __slots__ attributes, closures, default arguments) are replaced by cooperative ones (a wait nobody can end is reported as deadlock); the oracle is the same tree run sequentially, so purely sequential bugs are invisible here."),
  "C02": dict(engine="hjsim", design_ref="DESIGN.md 4.3-4.4",
    technique="deterministic simulation: seeded multi-actor histories (officials, athletes, heckler issuing rule-violating requests) against an executable reference model; refusal atomicity by before/after snapshots",
-   text="Seeded exploration of call histories on one competition object (1-4 athletes, <=4+3 heights quick, <=8+6 thorough, <=140/250 calls; scripted competitions with a heckler, and free random walks over the whole alphabet). After every call: accepted <=> the rule-text model says legal; a refusal is a RuleViolation and leaves state, heights, cards, bests, places, log and trials bit-identical; an acceptance is logged exactly once and shows on the card; the state only moves forward. Every 256th run (128th thorough) cuts its history at a seeded point and tries EVERY sequence of two calls over the whole alphabet from the state reached; in 40 % of the runs calls on a second competition object of the same process are interleaved and must leave this one untouched. Sampling, not proof (quick 4.8e5 histories + ~3e5 enumerated continuations, thorough 6e6).",
+   text="Seeded exploration of call histories on one competition object (1-4 athletes, <=4+3 heights quick, <=8+6 thorough, <=140/250 calls; scripted competitions with a heckler, and free random walks over the whole alphabet). After every call: accepted <=> the rule-text model says legal; a refusal is a RuleViolation and leaves state, heights, cards, bests, places, log and trials bit-identical; an acceptance is logged exactly once and shows on the card; the state only moves forward. Every 256th run (512th thorough) cuts its history at a seeded point and tries EVERY sequence of two calls over the whole alphabet from the state reached; in 40 % of the runs calls on a second competition object of the same process are interleaved and must leave this one untouched. Sampling, not proof (quick 4.8e5 histories + ~3e5 enumerated continuations, thorough 6e6).",
    note="Trusts the reference model (simkit/hjmodel.py, ~200 lines, written from the rule text; cases the text leaves open are tolerated either way) and reads the competition phase from the implementation, validating it with necessary conditions only."),
  "C03": dict(engine="hjsim", design_ref="DESIGN.md 4.6",
    technique="deterministic simulation: seeded complete competitions with scripted ties and jump-offs; places and bests checked against countback recomputed from the result cards alone",
